@@ -45,7 +45,16 @@ META = dict(
          "class name deleted / re-published, the not-imported module of type()-created classes appearing, module re-executed or "
          "re-imported, one class re-created by a factory under the same qualified name), each step loading the SAME payload "
          "again, storing the same descriptors from the current classes, or storing an unrelated graph sharing class names - every "
-         "step judged on its own with the flags measured at that step; non-trivial iff depth >= 2 or a non-trivial class kind "
+         "step judged on its own with the flags measured at that step; family 'reent' (+ ~3 % of the cases of every other "
+         "family, 10 % of the seq groups): values that are themselves taskiq / pydantic objects with their own serialisation "
+         "hooks - a TaskiqResult with / without an error (error not importable, with an unpicklable argument, with its own "
+         "chain or cycle, carrying the failed result of ITS child), nested in list / dict / tuple, a result subclass, "
+         "TaskiqMessage, BrokerMessage, a pydantic model, an ExceptionRepr, a wrapper instance - among the ARGUMENTS or as an "
+         "instance ATTRIBUTE (set after construction or in __init__) of an exception at any position, objects and exception "
+         "classes whose __repr__ / __str__ / __reduce__ / __getstate__ / unpickling store a result or call "
+         "taskiq.serialization themselves (some raise afterwards), on the same thread or on a helper thread they wait for: "
+         "the store is RE-ENTERED while an outer store is in progress (nesting depth logged by the hooks: up to 3); every "
+         "case runs in a supervised child process and a store / load that never finishes is the outcome 'hang'; non-trivial iff depth >= 2 or a non-trivial class kind "
          "(anything but a plain builtin) or argument kind (anything but a JSON-native scalar) or a shared node / cycle; "
          "distinct by the canonical JSON of the case",
     trusted_base=["model: coq/theories/ExcSer.v (hand-written transcription of taskiq/serialization.py and the error field "
@@ -59,7 +68,13 @@ META = dict(
                  "family 'seq': what a JSON store writes does not depend on sys.modules (json never encodes an exception object "
                  "or resolves a class), so a payload stored earlier is judged with the flags measured at the load; a step that loads "
                  "a payload whose original class OBJECT has been replaced under its name since is compared with the model only",
-                 "SEEN_EXCEPTIONS_CACHE is not re-entered (no TaskiqResult nested in exception args, one thread)",
+                 "a store is re-entered (a failed TaskiqResult among exception args / attributes, hooks storing a result, "
+                 "also on a helper thread the hook waits for) on acyclic and cyclic chains alike (the family 'reent' itself "
+                 "builds acyclic graphs, the post-pass over the other families any graph); two stores racing on free-running "
+                 "threads are not generated (non-deterministic)",
+                 "a stage (one store or one load) is declared hung when every thread of the supervised process has been "
+                 "asleep without consuming CPU time for 1.4 s after a grace period of 0.6 s (deadlock), or after 30 s of CPU "
+                 "time / 240 s of wall time",
                  "taskiq/result/v1.py (pydantic 1) is not active in this environment and is read only"],
 )
 
@@ -110,6 +125,25 @@ A_NOUNPICKLE = ["excbadinit", "reduceloadraises", "setstateraises", "listexcbadi
 A_SURR = ["surr", "surrnest", "surrval", "surrtuple"]
 A_SURRKEY = ["surrkey", "surrkeynest"]
 SCALARS = {"int", "neg", "zero", "str", "empty", "none", "true", "false", "float"}
+# --- values that are themselves taskiq / pydantic objects with their own serialisation hooks (seeded change C19/7).
+# A TaskiqResult whose `error` is set prepares that error in its __getstate__, so pickling an exception that carries one
+# (args: `raise ChildTaskFailed("..", child_result)`; instance attribute: `exc.child_result = res`) RE-ENTERS
+# prepare_exception on the same thread while the outer call is in progress.
+A_RESULT = ["reserr", "reserrprobe", "reserrlocal", "reserrbadarg", "reserrchain", "reserrcyc", "reserrnested",
+            "listreserr", "dictreserr", "tuplereserr", "subreserr"]
+A_MODEL = ["resok", "tmsg", "brokermsg", "pydmodel", "excrepr", "wrapperinst"]     # own hooks, no re-entry
+# objects whose __repr__ / __str__ / __reduce__ / __getstate__ / unpickling call back into taskiq's serialisation (some
+# raise afterwards), on the same thread ...
+A_HOOK = ["reprstores", "reprstoreslock", "strstores", "reducestores", "getstatestores", "reducestoresraises", "loadconverts"]
+A_THREAD = ["threadreduce", "threadrepr"]                                          # ... or on a helper thread they wait for
+A_REENTRANT = A_RESULT + A_HOOK + A_THREAD
+# exception CLASSES that carry a failed result on the instance / whose own hooks store a result
+REENT_CLS = ["ChildTaskFailed", "LocalChildFailed", "ReentStr", "LocalReentStr", "ReentReduce", "ReentReduceRaises",
+             "ThreadReduceExc", "LoadsResult", "ProbeErr"]
+REENT_CLS_ACTIVE = [c for c in REENT_CLS if c != "ProbeErr"]
+# Defect D15 of the pinned snapshot (see notes/C19.md): a re-entered store clear()ed the cycle guard of the outer one, so a
+# CYCLIC chain through a re-entering node recursed without bound. Repaired in /repo c423bc1; the minimal input is an ordinary
+# corpus entry (corpus/C19/d15_*.json) and re-entering values are generated on cyclic graphs too.
 
 
 def gen_arg(r, surr=True):
@@ -260,6 +294,87 @@ def falsify_seq(r, case, p=.25):
                     op["cls"] = m[op["cls"]]
     for st in case["steps"]:
         falsify(r, st.get("nodes", []), .05, skip=SEQ_SWITCHABLE + list(SEQ_FALSY_TWIN.values()))
+    return case
+
+
+def node_is_reentrant(s):
+    return bool(any(a in A_REENTRANT for a in s["args"]) or (s.get("res_attr") in A_REENTRANT) or s["cls"] in REENT_CLS_ACTIVE)
+
+
+def put_value(r, s, kind):
+    """the node carries one more value of the given kind: among its arguments (added or, where the constructor has a fixed
+    signature, in place of one) or as an instance attribute set after construction"""
+    lo, hi = ARITY.get(s["cls"], (0, 3))
+    free = s.get("set_args") or s["cls"] not in ARITY
+    if s["cls"] in FIXED and not s.get("set_args"):
+        s["res_attr"] = kind
+    elif free and len(s["args"]) < 4 and r.random() < .6:
+        s["args"].insert(r.randint(0, len(s["args"])), kind)
+    elif s["args"] and r.random() < .8:
+        s["args"][r.randrange(len(s["args"]))] = kind
+    else:
+        s["res_attr"] = kind
+
+
+def reentrify(r, nodes, p=.03, force=False):
+    """post-pass with its OWN rng (the underlying generators' streams are untouched): with probability p the graph gets
+    1..3 values that are taskiq / pydantic objects or whose hooks store a result themselves - as an argument, as an
+    instance attribute, or by the class of the exception - at any position, on cyclic graphs as well (a re-entered store on
+    a cyclic chain was defect D15 of the pinned snapshot - the nested call reset the cycle guard - repaired in /repo c423bc1)."""
+    if not nodes or (not force and r.random() >= p):
+        return nodes
+    case = dict(nodes=nodes)
+    rs = reach(case)
+    for _ in range(r.choice([1, 1, 2, 3])):
+        s = nodes[r.choice(rs)] if r.random() < .85 else r.choice(nodes)
+        if s["cls"] in SHADOW:
+            continue
+        k = r.random()
+        if k < .20 and s["cls"] not in ARITY and s["cls"] not in FIXED:
+            s["cls"], s["ctor_n"] = r.choice(REENT_CLS), 0
+        elif k < .35:
+            s["res_attr"] = r.choice(A_RESULT + ["resok"])
+        else:
+            put_value(r, s, r.choice(A_RESULT) if k < .65 else r.choice(A_HOOK) if k < .82 else r.choice(A_THREAD)
+                      if k < .92 else r.choice(A_MODEL))
+    return nodes
+
+
+def reentrify_case(r, case, p=.03):
+    reentrify(r, case["nodes"], p)
+    return case
+
+
+def reentrify_seq(r, case, p=.10):
+    if r.random() < p:
+        for st in case["steps"]:
+            if r.random() < .7:
+                reentrify(r, st.get("nodes", []), force=True)
+    return case
+
+
+def gen_reent_case(r):
+    """family "reent": an ACYCLIC exception graph (links go to later nodes only: chains, shared nodes, suppressed contexts
+    stay) that carries re-entering values. 40 %: the everyday shape - the task's own exception is a module-level / builtin /
+    local class raised with (message, failed child result) or given the result as an attribute"""
+    case = gen_case(r, mixin=True)
+    nodes = case["nodes"]
+    for i, s in enumerate(nodes):
+        for l in ("cause", "context"):
+            if s[l] is not None and s[l] <= i:
+                s[l] = r.randrange(i + 1, len(nodes)) if i + 1 < len(nodes) and r.random() < .6 else None
+    if r.random() < .4:
+        s = nodes[0]
+        if r.random() < .7:
+            retype(r, s, r.choice(["ModLevel", "RuntimeError", "Local", "Nested", "ValueError", "Dyn", "ModBase", "WithLock"]),
+                   native=True)
+            s["args"] = ["str"]
+        if s["cls"] not in ARITY and s["cls"] not in FIXED and r.random() < .7:
+            s["args"] = s["args"][:2] + [r.choice(A_RESULT)]
+        else:
+            s["res_attr"] = r.choice(A_RESULT)
+    reentrify(r, nodes, force=True)
+    case["family"] = "reent"
     return case
 
 
@@ -539,6 +654,9 @@ def oracle_tree(enc, nodes, t, i, path):
 def oracle(case, obs, enc):
     """None if the statement holds for this encoding, else (category, detail, stage)"""
     o = obs["enc"][enc]
+    if o["o"] == "hang":
+        return ("storing the result never finished" if o.get("stage") == "store" else "loading the result never finished",
+                "no progress: " + str(o.get("how")), o.get("stage", "store"))
     if o["o"] == "store_fail":
         return "storing the result raised", o["exc"], "store"
     if o["o"] in ("load_fail", "security"):
@@ -558,6 +676,7 @@ def sig_of(case, obs, enc, stage):
     root = obs["nodes"][0]
     first = next((m for m in root["mro"] if m["ok_pickle"]), None)
     return dict(enc=enc, stage=stage, exc=o.get("exc"), msg=o.get("msg", ""), outcome=o["o"],
+                reentrant_reachable=any(node_is_reentrant(case["nodes"][i]) for i in rs), cyclic=has_cycle(case),
                 surrogate=any(m["surrogate"] for m in args), surrogate_key=any(m["surrogate_key"] for m in args),
                 mixin_first=bool(not root["exc_rt_pickle"] and first is not None and not first["is_exc"]),
                 falsy_reachable=any(not obs["nodes"][i].get("truthy", True) or obs["nodes"][i].get("bool_raises") for i in rs))
@@ -587,6 +706,7 @@ def pickle_mixin_base_not_exception(f):
     return s.get("enc") == "pickle" and s.get("outcome") == "notexc" and bool(s.get("mixin_first"))
 
 
+# (finding D15 `reentrant_store_on_cyclic_chain` is repaired in /repo c423bc1: no predicate)
 # (finding D11 `falsy_exception_in_chain` is repaired in /repo 18e0da2: no predicate - falsy exception objects are ordinary
 # inputs, and a failure on one is a VIOLATION like any other)
 SIGNATURES = dict(surrogate_str_json_text=surrogate_str_json_text, surrogate_key_json_dict=surrogate_key_json_dict,
@@ -594,6 +714,11 @@ SIGNATURES = dict(surrogate_str_json_text=surrogate_str_json_text, surrogate_key
 
 
 # --------------------------------------------------------------------------- run
+# a driver process supervises its cases itself (a stage that hangs costs ~3 s and becomes a verdict); this is only the
+# fail-closed limit for the whole child process
+DRIVER_LIMIT = 900
+
+
 def tree_stats(rep, t, enc):
     if t is None:
         return
@@ -640,8 +765,44 @@ def graph_stats(rep, case, obs):
     if case.get("family") == "eq":
         eq_stats(rep, case, obs)
     falsy_stats(rep, case, obs, rs)
+    reent_stats(rep, case, obs, rs)
     rep.count("graph:shared_node", int(any(v > 1 for v in indeg.values())))
     rep.count("graph:cyclic", int(has_cycle(case)))
+
+
+NEW_VALUE_KINDS = set(A_REENTRANT + A_MODEL)
+
+
+def reent_stats(rep, case, obs, rs):
+    """how often the input kind "a value that is a taskiq object / stores a result itself" really occurs, where, and how
+    deep the store was really re-entered (logged by the generated hooks themselves while the real store ran)"""
+    here = False
+    for i in rs:
+        s = case["nodes"][i]
+        for a in s["args"]:
+            if a in NEW_VALUE_KINDS:
+                rep.count("reent:arg:" + a)
+        if s.get("res_attr"):
+            rep.count("reent:attr:" + s["res_attr"])
+        if s["cls"] in REENT_CLS:
+            rep.count("reent:class:" + s["cls"])
+        if node_is_reentrant(s):
+            here = True
+            rep.count("reent:position:" + ("root" if i == 0 else "deeper"))
+    rep.count("reent:cases_with_reentering_value_reachable", int(here))
+    if here:
+        rep.count("reent:family:" + str(case.get("family")))
+    for enc in ("text", "dict", "pickle"):
+        e = obs["enc"][enc]
+        h = e.get("hooks")
+        if h and h.get("calls"):
+            rep.count("reent:store:%s:deepest_prepare_exception_nesting:%d" % (enc, min(h["max_nest"], 4)))
+            if h.get("other_thread"):
+                rep.count("reent:store:%s:stored_on_helper_thread_meanwhile" % enc)
+        if (e.get("load_hooks") or {}).get("calls"):
+            rep.count("reent:load:%s:hook_ran" % enc)
+        if e["o"] == "hang":
+            rep.count("reent:hang:%s:%s:%s" % (enc, e.get("stage"), e.get("how")))
 
 
 def falsy_stats(rep, case, obs, rs):
@@ -756,7 +917,7 @@ def seq_stats(rep, c, o):
 
 def explore(ctx, rep, cases, label, use_oracle=True, obs=None):
     if obs is None:
-        obs = C.run_driver(ctx, "excser_driver", cases)
+        obs = C.run_driver(ctx, "excser_driver", cases, timeout=DRIVER_LIMIT)
     lits, keep = [], []
     nfail = 0
     for c, o in zip(cases, obs):
@@ -804,7 +965,13 @@ def run(ctx):
     rep = C.Report(ctx, META)
     rep.add_obligations(C.proof_obligations("C19"))
     corpus_known = {}
+    live = {k["signature"] for k in C.load_known() if k["property"] == "C19" and k["status"] == "known"}
     for name, c in C.load_corpus("C19"):
+        if c.get("requires_known") and c["requires_known"] not in live:
+            # the minimal input of a finding that is reported but not registered in known_findings.json yet
+            rep.count("corpus:entry_waiting_for_known_finding:" + c["requires_known"])
+            continue
+        c = {k: v for k, v in c.items() if k != "requires_known"}
         before = len(rep.failures)
         explore(ctx, rep, [c], "corpus_" + name.replace(".json", "").replace("-", "_"),
                 use_oracle=c.get("family") != "shadow")
@@ -816,25 +983,34 @@ def run(ctx):
     rq = ctx.sub_rng("seq")
     rf = ctx.sub_rng("falsy_seq")       # the falsy post-passes draw from their own streams (see falsify)
     seq_cases = [falsify_seq(rf, gen_seq_case(rq)) for _ in range(ctx.n(100, 3000))]
+    rr = ctx.sub_rng("reent_seq")      # ... and so do the post-passes adding values that store results themselves
+    seq_cases = [reentrify_seq(rr, c) for c in seq_cases]
     pool = ThreadPoolExecutor(1)
-    seq_obs = pool.submit(C.run_driver, ctx, "excser_driver", seq_cases, None, 4 if ctx.quick else None)
+    seq_obs = pool.submit(C.run_driver, ctx, "excser_driver", seq_cases, None, 4 if ctx.quick else None, DRIVER_LIMIT)
     r = ctx.sub_rng("gen")
     rf = ctx.sub_rng("falsy_main")
-    cases = [falsify_case(rf, gen_case(r)) for _ in range(ctx.n(2000, 60000))]
+    rr = ctx.sub_rng("reent_main")
+    cases = [reentrify_case(rr, falsify_case(rf, gen_case(r))) for _ in range(ctx.n(2000, 60000))]
     broken, _ = explore(ctx, rep, cases, "main")
     rs = ctx.sub_rng("shadow")
     rf = ctx.sub_rng("falsy_shadow")
-    b2, _ = explore(ctx, rep, [falsify_case(rf, gen_case(rs, shadow=True)) for _ in range(ctx.n(200, 4000))], "shadow",
-                    use_oracle=False)
+    rr = ctx.sub_rng("reent_shadow")
+    b2, _ = explore(ctx, rep, [reentrify_case(rr, falsify_case(rf, gen_case(rs, shadow=True)))
+                               for _ in range(ctx.n(200, 4000))], "shadow", use_oracle=False)
     broken = broken or b2
     re_ = ctx.sub_rng("eq")
     rf = ctx.sub_rng("falsy_eq")
-    b3, _ = explore(ctx, rep, [falsify_eq(rf, gen_eq_case(re_)) for _ in range(ctx.n(250, 6000))], "eq")
+    rr = ctx.sub_rng("reent_eq")
+    b3, _ = explore(ctx, rep, [reentrify_case(rr, falsify_eq(rf, gen_eq_case(re_))) for _ in range(ctx.n(250, 6000))], "eq")
     broken = broken or b3
+    # family "reent": acyclic graphs that carry values storing results themselves (own streams)
+    rr = ctx.sub_rng("reent")
+    rf = ctx.sub_rng("falsy_reent")
+    b5, _ = explore(ctx, rep, [falsify_case(rf, gen_reent_case(rr)) for _ in range(ctx.n(150, 4000))], "reent")
+    broken = broken or b5
     b4, _ = explore(ctx, rep, seq_cases, "seq", obs=seq_obs.result())
     pool.shutdown()
     broken = broken or b4
-    live = {k["signature"] for k in C.load_known() if k["property"] == "C19" and k["status"] == "known"}
     unexplained = [f for f in rep.failures if not any(p(f) for name, p in SIGNATURES.items() if name in live)]
     if (broken or any(not o["ok"] for o in rep.obligations)) and not unexplained:
         r2 = ctx.sub_rng("search")
